@@ -5,8 +5,10 @@ NOTE = ("Trusted: Coq 8.16.1 kernel; the hand-written model's faithfulness (chec
         "of atomics; dependency crates (orx-concurrent-iter, ordered bag, priority queue, SplitVec/FixedVec) modelled from "
         "their source, not verified. No axioms (Print Assumptions: closed under the global context).")
 
-K3 = ("tied to /repo by K3: ~2400 (quick) generated computations over 99 (source kind x chain shape) programs x 13 terminals "
-      "x num_threads/chunk_size settings run on the real crate and on the extracted model; ")
+K3 = ("tied to /repo by K3: ~9700 (quick) generated computations over 159 (source kind x chain shape) programs (Vec, slice, "
+      "&Vec, range, exact/unknown-size iterators, VecDeque (wrapped, owned and borrowed), BTreeSet, HashSet, LinkedList, "
+      "BinaryHeap, cloned view, pre-advanced concurrent iterators) x 21 terminals x num_threads/chunk_size settings run on the "
+      "real crate and on the extracted model, and K4: ~1300 replays under the deterministic scheduler; ")
 
 
 def c(technique, text, ref):
@@ -18,11 +20,14 @@ CLAIMS = {
              "Theorems: for every operation sequence on the eight computation types (any eager sites), every well-formed resolved "
              "setting and every schedule of the runner machine, the merge-collect and bag-collect kernels return the sequential "
              "chain's output (partition invariant, key-sorted k-way merge, exactly-once positional writes); " + K3 +
-             "collect_vec/collect/collect_into values compared with the specification value.", "DESIGN.md 5 C01"),
+             "collect_vec/collect/collect_into values compared with the specification value. Known finding: a concurrent "
+             "iterator advanced before into_par() + parallel map-only collect panics.", "DESIGN.md 5 C01"),
     "C02": c("Coq proof (all schedules incl. early-exit races) + differential correspondence",
              "Theorems: for every schedule the min-by-index combination of per-worker first matches is the least matching "
              "position and its first yielded value, None iff nothing matches; predicates are one more filter stage; " + K3 +
-             "find/first/*_with_index/any/all compared with the specification.", "DESIGN.md 5 C02"),
+             "find/first/*_with_index/any/all compared with the specification (K4 incl. designed flat_map inner-offset "
+             "races and 8192-element chunks). Known finding: pre-advanced concurrent iterator, sequential *_with_index "
+             "reports the position among the remaining elements.", "DESIGN.md 5 C02"),
     "C03": c("Coq proof (assoc+comm operator, all schedules) + differential correspondence",
              "Theorem: the per-chunk / per-thread / spawn-order combination tree equals the left fold over the sequential output "
              "for every schedule when the operator is associative and commutative; " + K3 +
@@ -54,10 +59,13 @@ CLAIMS = {
     "C10": c("Coq proof (signal closes the source; measure-based termination, every schedule) + endless-source runs",
              "Theorems: after skip_to_end no pull succeeds; the effective steps remaining after the signal are bounded by the thread "
              "bound and chunk sizes only; every step stutters or decreases a measure, so no reachable state is stuck, no schedule has "
-             "more than 5*max+2+4*len effective steps, and any prefix followed by round robin completes; sequential find consumes a "
-             "trace up to its first yield. K10: find/any/all/first on an endless iterator source in child processes with timeouts, "
-             "value vs model on a finite prefix, source consumption exact (sequential) / bounded (parallel). Partial: fairness is "
-             "'any prefix then round robin'; free-running consumption bound is generous.", "DESIGN.md 5 C10"),
+             "more than 5*max+2+4*len effective steps, and any prefix followed by round robin completes; the same three results "
+             "over by-value iterator sources (ticket/gate protocol: liveness invariant - every position between frontier and "
+             "ticket counter claimed exactly once -, no deadlock on the handle, work after the signal bounded by threads and "
+             "chunk sizes only); sequential find consumes a trace up to its first yield. K10: find/any/all/first on an endless "
+             "iterator source and on very long ranges of known length in child processes with timeouts, value vs model on a "
+             "finite prefix, source consumption exact (sequential, every chain x explicit chunk sizes) / bounded (parallel). "
+             "Partial: fairness is 'any prefix then round robin'; free-running consumption bound is generous.", "DESIGN.md 5 C10"),
     "C11": c("Coq proof (settings arithmetic) + differential correspondence + hook observation",
              "Theorems: Exact(c) resolves to c (clamped to a known length) and every later worker is handed exactly that size; "
              "K1 exhaustive grid on the real Runner functions; K3: chunk sizes handed to workers (WorkerBegin hook).",
@@ -69,22 +77,27 @@ CLAIMS = {
     "C13": c("Coq proof on the ownership model of the unsafe islands (every schedule) + canary-item correspondence",
              "Theorems: for every schedule every element of an owning source is moved out exactly once or dropped in place exactly "
              "once (first skip_to_end / iterator Drop / draining chunk iterator), never both; the merge reads every (key,value) "
-             "exactly once; every bag slot is written exactly once; fragments hold every value once. K6: canary items with "
+             "exactly once; every bag slot is written exactly once; fragments hold every value once; over iterator sources every "
+             "yielded element is processed or abandoned exactly once. K6: canary items with "
              "per-item drop counts through every terminal x owning sources x params in child processes. Partial: real memory is a "
              "runtime fact; safe Rust between the islands is assumed linear (compiler guarantee).", "DESIGN.md 5 C13"),
     "C14": c("Coq proof on the ownership model with panicking closures (every schedule) + panic-injection correspondence",
              "Theorems: a worker that processed a panicking position is dead (never swallowed); fair continuation completes (no "
              "hang); source accounting holds with arbitrary panics; the guarded bag drops nothing on unwind (unguarded policy "
-             "refuted). K6: panic injected at every kind of closure call: outcome must be a panic, no item dropped twice, no "
-             "never-initialised memory dropped, process must not abort. Partial as C13.", "DESIGN.md 5 C14"),
+             "refuted); no hang and element accounting also over iterator sources. K6: panic injected at every kind of chain "
+             "closure call and in the reduce operator (k-th call / on the calling thread, workers slowed so that all take part): "
+             "outcome must be a panic, no item dropped twice, no never-initialised memory dropped, process must not abort or "
+             "hang. Partial as C13.", "DESIGN.md 5 C14"),
     "C15": c("Coq proof of totality of the checked-usize settings arithmetic + differential correspondence",
              "Theorems: no checked usize operation overflows/underflows/divides by zero within the stated bounds, resolved settings "
              ">= 1; K1 including which inputs panic; K3: every parallel result equals the specification and no terminal panics over "
              "the configuration grid.", "DESIGN.md 5 C15"),
     "C16": c("Coq proof (laziness of 24 transitions, exact eager list) + construction-log correspondence",
              "Theorems: outside the eight known sites nothing runs during construction; setters never run anything; at the known "
-             "sites the upstream stage is fully evaluated (refutation witness); " + K3 + "construction-time call logs; the eight "
-             "sites are reported as KNOWN-FINDING, any other is a violation.", "DESIGN.md 5 C16"),
+             "sites the upstream stage is fully evaluated (refutation witness); " + K3 + "construction-time call logs; source "
+             "elements pulled from an instrumented iterator while building; the terminal's run (RunBegin hook) vs Runner::new of the "
+             "parameters last set, sequential vs parallel; the eight sites are reported as KNOWN-FINDING, any other is a violation.",
+             "DESIGN.md 5 C16"),
 }
 
 _PENDING = "check under construction in this round (Coq model layer not yet built); the property is decidable by the technique, see DESIGN.md section 5"
